@@ -977,6 +977,30 @@ func c19Oracle(c *oracleCtx) {
 			return ""
 		})
 	}
+	c.check("retrieval:stored-before-init", true, func() string {
+		// a constructor that enrols the new value in a registry before it calls Init (the value is its own
+		// outer value from the start, Init only confirms it)
+		regL, regO := NewList(), NewObject()
+		d := &dObject{Object: NewObject("k", 1), tag: "early"}
+		regL.Add(d)
+		regO.Set("d", d)
+		d.Init(d)
+		dl := &dList{List: NewList(1), tag: "early"}
+		regL.Add(dl)
+		regO.Set("dl", dl)
+		dl.Init(dl)
+		if regL.ObjectSlice()[0] != Object(d) || regL.ListSlice()[0] != List(dl) || regL.Get(0) != any(d) || regL.GetList(1) != List(dl) || regO.Get("d") != any(d) || regO.GetList("dl") != List(dl) {
+			return "a derived value stored before its Init call is not handed back identically"
+		}
+		var so Object
+		var sl List
+		regL.ForEachObject(func(x Object) { so = x })
+		regL.ForEachList(func(x List) { sl = x })
+		if so != Object(d) || sl != List(dl) || regL.FilterObjects(func(Object) bool { return true }).Get(0) != any(d) {
+			return "typed iteration over a value stored before its Init call hands back another value"
+		}
+		return ""
+	})
 	c.check("retrieval:listof", true, func() string {
 		dl, do := newDList(1), newDObject("k", 1)
 		for n := 1; n <= 3; n++ {
